@@ -92,6 +92,49 @@ ROUND3 = {
  "C20-mutF": ("calcProjectionMatrix fast path A A^H / gram[0,0] when A^H A is (close to) diagonal", "orthogonal columns of unequal norm"),
 }
 
+ROUND4 = {
+ "C01-mutG": ("demodulate flattens with ravel(order='K'), reshapes in C order", "non-C-contiguous 2-D sample arrays (transposed / Fortran order)"),
+ "C01-mutH": ("QAM cardinality parity clause `power % 2 != 0` became `== 1` (float log2)", "unsupported orders whose log2 is not an integer (6, 65, 258, ...)"),
+ "C02-mutG": ("SISO corrupt_data writes the first sparse tap at delay 0", "tap profile whose first discretised delay is non-zero"),
+ "C02-mutH": ("OFDM.demodulate removes the power scale in place on the CP-stripped view of the caller's buffer", "the same received buffer demodulated twice"),
+ "C03-mutG": ("get_freq_response reads the cached dense taps; __mul__ copies the object with the stale cache", "path loss + frequency-domain transmission of exactly one block, response read afterwards"),
+ "C03-mutH": ("tap merging by np.add.reduceat over first occurrences (assumes sorted delays)", "profile whose delays are not listed in increasing order"),
+ "C04-mutG": ("gmd: invperm[j] = i instead of invperm[i] = j", "GMD link with 5 or more layers"),
+ "C04-mutH": ("MMSE filter adds the noise through fill_diagonal on H^H H (integer dtype truncates it)", "integer-dtype channel matrix with a positive noise variance"),
+ "C05-mutG": ("get_result_values_list takes a strided slice between the first and last index", "3 unpacked parameters with only the middle one fixed"),
+ "C05-mutH": ("loop condition evaluated once and refreshed only after a merged repetition", "_keep_going depending on the skipped-repetition count, threshold crossed by a skip"),
+ "C06-mutG": ("Result.merge adopts the operand's arrays by reference when num_updates == 0", "array-valued result merged into an empty accumulator, then another merge"),
+ "C06-mutH": ("get_pack_indexes falls back to np.isclose when the exact lookup fails", "float grid values closer than 1e-8, partially overlapping result sets"),
+ "C07-mutG": ("SimulationParameters.__eq__ treats values of different shape as equal", "fixed array parameter whose length changed between run and restart"),
+ "C07-mutH": ("parameters of partial result files verified only for the first file of a simulate()", "restart with a changed grid whose first combination still matches"),
+ "C08-mutG": ("_update_pathloss_big_matrix passes K instead of the (Kr, Kt) shape", "ExtInt channel: set_pathloss with external path loss, then randomize / init again"),
+ "C08-mutH": ("set_post_filter returns early for the container it already holds", "element of the caller's filter container replaced, set_post_filter again"),
+ "C09-mutG": ("sqrt(iPu) cached at construction, used without water-filling", "iPu reassigned on a reused object"),
+ "C09-mutH": ("matrix_rank of the other users' channel with tol=1e-8 (absolute)", "channel of small absolute magnitude (1e-10)"),
+ "C10-mutG": ("P setter returns early for None -> None before invalidating the full filters", "solve without power, read full_W_H, randomizeF without power, read again"),
+ "C10-mutH": ("new_full_F / (norm * original_norm) after stream reduction", "Ns > 1, vector power with one tiny entry different from 1"),
+ "C11-mutG": ("_update_pathloss_big_matrix passes only the row count", "ExtInt channel: path loss set, later randomize, then SINR"),
+ "C11-mutH": ("interference-plus-noise below eps replaced by eps in _calc_SINR_k", "receive filters / levels scaled so that the denominator is below 2.2e-16"),
+ "C12-mutG": ("removal loop also requires not np.isclose(sum(Ps), Pt)", "powers and noise below 1e-8 in absolute scale"),
+ "C12-mutH": ("Es dropped from the initial water level", "Es != 1 and a budget near the first switch-off decision"),
+ "C13-mutG": ("C for n=1 cached at construction, n setter scales it; fc setter does not refresh the cache", "fc setter followed by n setter on one object"),
+ "C13-mutH": ("12*angle**2/theta**2 evaluated in the dtype of the angle array", "int8/int16 angle arrays with |angle| >= 53 degrees"),
+ "C14-mutG": ("rays summed with out= into the previous samples array when the size repeats", "two consecutive equal-size requests, earlier block kept"),
+ "C14-mutH": ("skip recorded as a pending count that a second skip overwrites", "two consecutive skips before a generation"),
+ "C15-mutG": ("gray2binary adaptive prefix-xor stops one stage early", "Gray word exactly 2^(2^j)"),
+ "C15-mutH": ("QPSK() builds its constellation through setPhaseOffset (natural order)", "the derived class QPSK()"),
+ "C16-mutG": ("QAM Gray index arithmetic in uint8", "square QAM of order >= 1024"),
+ "C16-mutH": ("BER memoised in calcTheoreticalPER keyed on the identity of the SNR object", "same SNR array passed again after an in-place change"),
+ "C17-mutG": ("ndarray encoder writes ravel(order='K')", "Fortran-ordered / permuted multi-dimensional arrays"),
+ "C17-mutH": ("float parameters rounded to 12 decimals in file-name templating", "two float values closer than 5e-13"),
+ "C18-mutG": ("shift 0 returns the root array itself; user sequence normalised in place", "shared root, user on shift 0 with normalize=True, then another use of the root"),
+ "C18-mutH": ("`is True` test of the normalisation flag became truthiness", "flag given as numpy.bool_ / integer"),
+ "C19-mutG": ("move_by_relative_coordinate writes _pos directly", "populated cell moved through a relative-move helper"),
+ "C19-mutH": ("square-grid positions memoised in the hexagon-layout dict keyed by num_cells", "4-cell square and hexagon clusters in one process"),
+ "C20-mutG": ("gmd: invperm[k1] = j (no-op) instead of invperm[i] = j", "at least 5 singular values"),
+ "C20-mutH": ("principal-angle cosines np.isclose to 1 snapped to 1", "close but unequal subspaces (angles below 4.5e-3 rad)"),
+}
+
 
 def main():
     det, conf = {}, {}
@@ -108,6 +151,7 @@ def main():
     n = 0
     both = dict(ROUND2)
     both.update(ROUND3)
+    both.update(ROUND4)
     for mid, (what, needs) in sorted(both.items()):
         d = "/verif/seeded/%s" % mid
         if not os.path.isdir(d):
@@ -118,7 +162,7 @@ def main():
         for o in dd.get("obligations", []):
             kinds.append(o)
         meta = {
-            "property": mid[:3], "name": mid, "round": 3 if mid in ROUND3 else 2,
+            "property": mid[:3], "name": mid, "round": 4 if mid in ROUND4 else 3 if mid in ROUND3 else 2,
             "what_changed": what, "needs_to_manifest": needs,
             "caught_by": dd.get("obligations", []),
             "check_exit_with_change_applied": dd.get("exit"),
